@@ -1,3 +1,3 @@
 Require Import ExtrOcamlBasic ExtrOcamlNativeString.
 Require Import MPSV.Goal.GoalModel MPSV.Goal.StopModel.
-Extraction "../ocaml/stopq.ml" check_stop sec_check_stop modify_roots reset_new clusters_wfb improve std_run set_prec start_prec.
+Extraction "../ocaml/stopq.ml" check_stop sec_check_stop modify_roots reset_new clusters_wfb improve std_run sec_run set_prec start_prec.
